@@ -48,6 +48,9 @@ struct Seen {
     format_specs: u64,
     shared_storage_comparisons: u64,
     multibyte_inputs: u64,
+    serde_round_trips: u64,
+    serde_documents_accepted: u64,
+    serde_documents_rejected: u64,
 }
 
 fn h<T: Hash + ?Sized>(t: &T) -> u64 {
@@ -239,7 +242,62 @@ fn constructors(input: &[u8], native: bool) -> Vec<(&'static str, Result<ByteStr
     v
 }
 
+/// The `serde` feature is part of the safe API: a `ByteString` obtained by deserialising must be valid UTF-8 and equal
+/// to what `String` gives for the same document, documents `String` rejects must be rejected, and serialising agrees
+/// with `str`. The raw input is used twice: as the content of a JSON string literal (whatever bytes it has: quotes,
+/// backslashes, control characters, invalid UTF-8) and, when it is valid, through a serialise / deserialise round trip.
+fn check_serde(input: &[u8], seen: &mut Seen) -> Result<(), Fail> {
+    let mut docs: Vec<Vec<u8>> = Vec::new();
+    let mut d = vec![b'"'];
+    d.extend_from_slice(input);
+    d.push(b'"');
+    docs.push(d);
+    // the same bytes as \u escapes of their values (lone surrogates and NUL included when the bytes say so)
+    if input.len() <= 3 {
+        let mut e = String::from("\"");
+        for pair in input.chunks(2) {
+            let v = if pair.len() == 2 { (pair[0] as u16) << 8 | pair[1] as u16 } else { pair[0] as u16 };
+            e.push_str(&format!("\\u{v:04x}"));
+        }
+        e.push('"');
+        docs.push(e.into_bytes());
+    }
+    for doc in &docs {
+        let want: Result<String, _> = serde_json::from_slice(doc);
+        let got: Result<ByteString, _> = serde_json::from_slice(doc);
+        match (want, got) {
+            (Ok(w), Ok(g)) => {
+                seen.serde_documents_accepted += 1;
+                if std::str::from_utf8(g.as_bytes()).is_err() {
+                    return fail("C20:serde:invalid-utf8-value", format!("deserialising {doc:?} gave a ByteString whose bytes {:?} are not valid UTF-8", g.as_bytes()));
+                }
+                if g.as_bytes() != w.as_bytes() {
+                    return fail("C20:serde:differs-from-string", format!("deserialising {doc:?}: ByteString {:?}, String {:?}", g.as_bytes(), w.as_bytes()));
+                }
+                check_value(&g, &w, "serde::Deserialize", seen)?;
+                let (js, jb) = (serde_json::to_string(w.as_str()).unwrap(), serde_json::to_string(&g));
+                match jb {
+                    Ok(jb) if jb == js => seen.serde_round_trips += 1,
+                    other => return fail("C20:serde:serialize-differs-from-str", format!("serialising {w:?}: ByteString gave {other:?}, str gave {js:?}")),
+                }
+            }
+            (Err(_), Err(_)) => seen.serde_documents_rejected += 1,
+            (Ok(w), Err(e)) => return fail("C20:serde:rejects-what-string-accepts", format!("document {doc:?} deserialises to String {w:?} but not to ByteString: {e}")),
+            (Err(e), Ok(g)) => {
+                return fail(
+                    if std::str::from_utf8(g.as_bytes()).is_err() { "C20:serde:invalid-utf8-value" } else { "C20:serde:accepts-what-string-rejects" },
+                    format!("document {doc:?} is rejected for String ({e}) but gave ByteString with bytes {:?}", g.as_bytes()),
+                )
+            }
+        }
+    }
+    Ok(())
+}
+
 fn run_input(input: &[u8], native: bool, prev_valid: &mut Vec<String>, seen: &mut Seen) -> Result<(), Fail> {
+    if native {
+        check_serde(input, seen)?;
+    }
     let want = std::str::from_utf8(input);
     if want.is_ok() {
         seen.valid_inputs += 1;
@@ -428,4 +486,7 @@ pub fn run(args: &Args, rep: &mut Report) {
     rep.add("obs_ord_pairs", seen.ord_pairs);
     rep.add("obs_format_spec_comparisons", seen.format_specs);
     rep.add("obs_shared_storage_comparisons", seen.shared_storage_comparisons);
+    rep.add("obs_serde_round_trips", seen.serde_round_trips);
+    rep.add("obs_serde_documents_accepted", seen.serde_documents_accepted);
+    rep.add("obs_serde_documents_rejected", seen.serde_documents_rejected);
 }
